@@ -127,7 +127,8 @@ def run(ctx, res):
             names = sorted({it.text for it in items if it.text[:1].isalpha() or it.text[:1] >= b'\x80'})
             keep = rng.sample(names, min(len(names), rng.randrange(0, 4))) + rng.sample([b'a', b'b', b'c', b'ba', b'zz'], 2)
         if rng.random() < 0.3:
-            src = rng.choice([b'-- title\n-- by me\n', b'--t\n', b'// a\n//b\n--c\n', b'--[[ multi\nline ]]\n']) + src
+            src = rng.choice([b'-- title\n-- by me\n', b'--t\n', b'// a\n//b\n--c\n', b'--[[ multi\nline ]]\n', b'-- see t[a[1]]\n', b'-- ]]\n-- [[\n',
+                              b'// x]]\n', b'--[==[ a ]==]\n--]==]\n', b'--[[a]]--b]]\n', b'-- --[[\n']) + src
         cases.append((src, cfg, keep, 'program'))
         for k in feats:
             res.count('feat:' + k)
